@@ -32,17 +32,15 @@ def model_part(work, thorough):
         runs.append({"cfg": cfg, "violates": inv})
     # inductive invariant with Apalache (ranges over all states satisfying IndInv, 4 readers, 2 writers, 3 slots -
     # more than TLC can enumerate): Init => IndInv, IndInv /\ Next => IndInv', IndInv => Mutex
-    for (init, inv, length) in (("Init", "IndInv", 0), ("IndInit", "IndInv", 1), ("IndInit", "Mutex", 0)):
-        o = run_apalache_rb(work, init, inv, length)
-        runs.append({"apalache": "RBMutexInd.tla", "init": init, "inv": inv, "length": length, "outcome": o})
-        if o != "NoError":
-            raise vlib.MachineryError("RBMutexInd.tla: %s => %s (length %d) is not valid: %s" % (init, inv, length, o))
+    # thorough: the same obligations for 6 readers, 3 writers, 4 slots (RBMutexIndBig.tla)
+    for mod in (["RBMutexInd", "RBMutexIndBig"] if thorough else ["RBMutexInd"]):
+        for (init, inv, length) in (("Init", "IndInv", 0), ("IndInit", "IndInv", 1), ("IndInit", "Mutex", 0)):
+            o = vlib.run_apalache(work, mod, init, inv, length, cinit="CInit", timeout=1800,
+                                  tag="%s_%s_%s_%d" % (mod, init, inv, length), extra=["RBMutex"])
+            runs.append({"apalache": mod + ".tla", "init": init, "inv": inv, "length": length, "outcome": o})
+            if o != "NoError":
+                raise vlib.MachineryError("%s.tla: %s => %s (length %d) is not valid: %s" % (mod, init, inv, length, o))
     return states, trans, runs
-
-
-def run_apalache_rb(work, init, inv, length):
-    return vlib.run_apalache(work, "RBMutexInd", init, inv, length, cinit="CInit", timeout=900,
-                             tag="rbind_%s_%s_%d" % (init, inv, length), extra=["RBMutex"])
 
 
 def trace_part(work, v, pid, thorough):
